@@ -86,6 +86,23 @@ func runCheck(prop, tier, repo, verif string, overlay map[string][]byte, fn chec
 		res.code = r.verdictOnly()
 		return
 	}
+	if tier == "thorough" && overlay == nil {
+		// checker self-test: every stored semantic mutation of /repo is applied in memory (packages.Config.Overlay)
+		// and the rule it targets must fire. The outcome is evidence about the checker; it never changes the verdict
+		// on /repo's tree.
+		results := selfTestResults(prop, fn, repo, verif)
+		fired := 0
+		for _, rec := range results {
+			if rec["result"] == "fired" {
+				fired++
+			} else {
+				r.Note("self-test mutation %s: %s", rec["mutation"], rec["result"])
+			}
+		}
+		r.Extra["selftest_mutations"] = results
+		r.Extra["selftest_fired"] = fired
+		r.Extra["selftest_total"] = len(results)
+	}
 	res.code = r.Finish(meta)
 	return
 }
